@@ -59,3 +59,16 @@ func TestC17_KNOWN_EscapejsBackslashSequences(t *testing.T) {
 		t.Logf("KNOWN FINDING: %q|escapejs = %q, decoding it gives CR/LF instead of the input's backslash sequences (want %q)", `a\rb\nc`, out, want)
 	}
 }
+
+// Known finding C07 (pinned by the upstream fixture template_tests/expressions.tpl.out, line 6:
+// 531440999967.000000): ^ computes in float also for two integers, so the result prints with six decimals although
+// the property says "integer arithmetic on integers".
+func TestC07_KNOWN_IntegerPowerPrintsFloat(t *testing.T) {
+	out, err := render(t, newSet(nil), `{{ 2 ^ 3 }}`, nil)
+	if err != nil {
+		t.Fatal(err)
+	}
+	if out != "8" {
+		t.Logf("KNOWN FINDING: {{ 2 ^ 3 }} = %q (want \"8\")", out)
+	}
+}
